@@ -11,7 +11,7 @@ use crate::spaces::body::{self, B, BodySpace};
 use crate::subjects::alpha::{self, Verdict};
 use serde_json::{Value, json};
 
-const ATOMS: usize = 6;
+pub const ATOMS: usize = 6;
 pub const VARIANTS: [&str; 3] = ["void function", "function with `return:` value (goto return)", "second function holding labels A and B"];
 
 fn atom_text(variant: usize, a: u8) -> String
